@@ -26,8 +26,9 @@ LEVEL_NOTE = ('Trusted: engine/xp (hashing validated differentially against the 
               'in the thorough tier) and the independent count of compatible clauses/parities. '
               'Bounded to n<=3 (4 for a few shapes); float draws are not used by these samplers.')
 RULE = ('cases = every (k,n,m,planted-assignment set) of the box for both samplers and the CLI; per '
-        'case every sequence of random answers is executed; evaluations = executions run on the '
-        'implementation; a case is non-trivial when it has more than one execution')
+        'case every sequence of random answers is executed; evaluations = cases (one complete '
+        'exploration each; the executions on the implementation are reported as '
+        'traces_validated_against_impl); a case is non-trivial when it has more than one execution')
 ASSUMPTIONS = [
     'n<=3 variables (some n=4 shapes in thorough), planted sets: none, one total assignment, two '
     'complementary ones, all 2^n',
@@ -36,6 +37,12 @@ ASSUMPTIONS = [
 ]
 VACUITY = {'executions': 1000, 'raised_ValueError': 5, 'returned_formula': 500,
            'cases_with_many_outcomes': 5}
+
+
+def coverage_extra(tier, stats, outcomes):
+    return {'exhaustive_note': 'library samplers: every sequence of random answers (complete, state hashing); command line cases: every execution with at most max_dev answers off the default schedule',
+            'deviation_bounded_cases': int(stats.get('cases_deviation_bounded', 0)),
+            'executions_on_implementation': int(stats.get('executions', 0))}
 
 
 def preload():
